@@ -869,9 +869,9 @@ func Spec() *run.Spec {
 			}, Run: parallelFillCase, Batch: 2, CPUBudgetS: 240, Parallel: 4},
 			{Name: "boundary", Cases: func(t string) int {
 				if t == "thorough" {
-					return 900
+					return 900 + 360
 				}
-				return 90
+				return 90 + 54
 			}, Run: boundaryCase, Batch: 3, CPUBudgetS: 120},
 			{Name: "ties", Cases: func(t string) int {
 				if t == "thorough" {
